@@ -425,6 +425,7 @@ def parse_instr(mod, toks, ln):
         while True:
             ops.append(parse_typed_value(p))
             if not p.accept(','): break
+            if p.peek()[0] == 'meta': break      # trailing metadata (", !nosanitize !N" on member-pointer calls)
         return Instr(res, 'gep', bt=bt, ops=ops, ty=PtrTy(IntTy(8)))
     if op == 'cmpxchg':
         p.accept('weak'); p.accept('volatile')
@@ -1239,6 +1240,9 @@ class FnEmit:
                     em.need_func(bn); em.need_func(en)
                     if not s.thread: raise ValueError('blocking call outside thread entry: ' + s.f.name)
                     s.ncs += 1; k = s.ncs
+                    if (rx, fns) in [tuple(x) for x in em.opts.blockingc]:
+                        # conditional form: begin() returns non-zero iff the caller has to give up the processor
+                        return ['if (%s(%s)) { F->pc = %d; return 2; }' % (em.fname(bn), ', '.join(args), k), '@@CS %d@@' % k, '%s%s();' % (asg, em.fname(en))]
                     return ['%s(%s); F->pc = %d; return 2;' % (em.fname(bn), ', '.join(args), k), '@@CS %d@@' % k, '%s%s();' % (asg, em.fname(en))]
             em.need_func(name)
             f = em.mod.funcs[name]
@@ -1316,6 +1320,7 @@ def main():
     ap.add_argument('--nop', action='append', default=[], help='regex: empty body')
     ap.add_argument('--thread', action='append', default=[], help='regex: emit as resumable thread entry')
     ap.add_argument('--blocking', action='append', default=[], help='regex=begin_fn,end_fn')
+    ap.add_argument('--blockingc', action='append', default=[], help='regex=begin_fn,end_fn ; begin returns non-zero iff the thread must yield')
     ap.add_argument('--cs-atomic-only', dest='cs_atomic_only', action='store_true')
     ap.add_argument('--cs-none', dest='cs_none', action='store_true', help='cooperative: context switches only at blocking calls')
     ap.add_argument('--map', action='append', default=[], help='regex=fn : call harness fn instead')
@@ -1324,7 +1329,8 @@ def main():
     ap.add_argument('--no-inline-expr', dest='no_inline_expr', action='store_true')
     o = ap.parse_args()
     o.asm = dict(x.rsplit('=', 1) for x in o.asm)
-    o.blocking = [x.rsplit('=', 1) for x in o.blocking]
+    o.blockingc = [x.rsplit('=', 1) for x in o.blockingc]
+    o.blocking = [x.rsplit('=', 1) for x in o.blocking] + o.blockingc
     o.map = [x.rsplit('=', 1) for x in o.map]
     o.asm.setdefault('', 'identity')
     mod = Module(); mod.parse(open(o.ll).read())
